@@ -290,7 +290,7 @@ impl DhtHandler {
                 let valid = a.token@.len() == 20 && (a.token@ == H(sa_ip(addr), ts.curr_secret).token@ || a.token@ == H(sa_ip(addr), ts.last_secret).token@);
                 &&& (!valid ==> r.body is Error && r.body->Error_0.code == 203 && final(self).active_stores == old(self).active_stores)
                 &&& (r.body is Response ==> valid)
-                &&& (r.body is Error ==> r.body->Error_0.code == 203 || r.body->Error_0.code == 202) }), // @C06.stored_only_with_token_issued_to_this_ip
+                &&& (r.body is Error ==> r.body->Error_0.code == 203 || r.body->Error_0.code == 202) }), // @C06.stored_only_with_token_issued_to_this_ip @C05.announce_refused_with_203_iff_token_not_valid_for_this_ip
             !old(self).read_only && (message.body matches MessageBody::Request(Request::AnnouncePeer(a))) ==> ({
                 let r = reply(delta(old(tr).ev, final(tr).ev));
                 let a = message.body->Request_0->AnnouncePeer_0;
@@ -303,7 +303,7 @@ impl DhtHandler {
                               && final(self).active_stores.expires@.drop_last() == e0.filter(not_key(k)) }))
                 &&& (r.body is Error && r.body->Error_0.code == 202 ==> final(self).active_stores.expires@ == e0 && e0.len() >= 500)
                 // a refused announce (203 or 202) stores nothing: only pairs that were successfully announced are ever handed out
-                &&& (r.body is Error ==> forall|k: Key| #[trigger] e_has(final(self).active_stores.expires@, k) ==> e_has(old(self).active_stores.expires@, k)) }), // @C07.announce_stores_source_ip_with_port_or_refuses_202
+                &&& (r.body is Error ==> forall|k: Key| #[trigger] e_has(final(self).active_stores.expires@, k) ==> e_has(old(self).active_stores.expires@, k)) }), // @C07.announce_stores_source_ip_with_port_or_refuses_202 @C05.announce_acknowledged_or_202_when_full
             // ---- C17: every reply fits the 1500-byte receive buffer of its peer (transaction ids up to 32 bytes)
             !old(self).read_only && message.transaction_id@.len() <= 32 && (message.body matches MessageBody::Request(Request::Ping(_))) ==> blen(reply(delta(old(tr).ev, final(tr).ev))) <= 1500, // @C17.ping_reply_fits_1500_bytes
             !old(self).read_only && message.transaction_id@.len() <= 32 && (message.body matches MessageBody::Request(Request::FindNode(_))) ==> blen(reply(delta(old(tr).ev, final(tr).ev))) <= 1500, // @C17.find_node_reply_fits_1500_bytes
